@@ -300,7 +300,7 @@ theorem macro_step (hw : T.WFInv) (nroot fuel : Nat) (IH : AllSpecs T nroot fuel
   intro buf tok math st hg hb ht
   simp only [expandMacro]
   apply Post_get_bind
-  have hb' := BL_skipSpaceStopLang T _ _ hb
+  have hb' := BL_skipSpaceStopLangAct T _ _ hb
   cases hmac : lookupMacro st tok.txt with
   | none =>
     dsimp only
